@@ -946,10 +946,10 @@ def run(ctx: Ctx):
         c14_tms.genfromtxt_cases(ctx, impl, drv, rng, ctx.budget(400, 5000), me)
         for _ in range(ctx.budget(250, 2500)):
             c14_tms.tms_case(ctx, impl, drv, rng, quick, me)
-        nb = ctx.budget(400, 5000)
+        nb = ctx.budget(400, 4400)
         for _ in range(nb):
             base_case(ctx, impl, drv, spec, rng, quick)
-        for kind, n in (("site", ctx.budget(200, 2500)), ("disc", ctx.budget(60, 800)), ("events", ctx.budget(60, 800))):
+        for kind, n in (("site", ctx.budget(200, 2200)), ("disc", ctx.budget(60, 800)), ("events", ctx.budget(60, 800))):
             for _ in range(n):
                 site_case(ctx, impl, drv, spec, rng, quick, kind)
         for _ in range(ctx.budget(120, 1200)):
